@@ -51,7 +51,8 @@ def run(ck, rng, tier):
     lines, meta = [], []
     pairs = [(n, g) for n in range(6, 31 if thorough else 17) for g in range(1, n + 1)]
     if not thorough:
-        pairs = rng.sample(pairs, 60) + [(6, 1), (6, 6), (7, 3), (16, 5)]
+        # ... plus the shapes whose group matrix is square (groups == ceil(objects / groups)) and a few fixed ones
+        pairs = rng.sample(pairs, 60) + [(6, 1), (6, 6), (7, 3), (16, 5), (9, 3), (8, 3), (16, 4), (14, 4), (13, 4)]
     for (n, g) in pairs:
         seed = rng.choice((g + n + 1 + 4 + rng.randint(0, 12), rng.randint(0, 255)))
         lines.append("groups %d %d %d" % (seed, g, n))
